@@ -243,7 +243,7 @@ def _after_model(ctx, quick, rnd, binary, defect, runs):
     # ---- 2. histories from TLC (the generator runs are independent: run them side by side)
     scs = []
     gen_stats = {}
-    ntr = 60 if quick else 500
+    ntr = 45 if quick else 500
     dep = 6 if quick else 8
     jobs = [
         ("all-mixed-2", dict(), lambda: _gen(ctx, "gen_all2.cfg", _consts(defect=defect, depth=2, mixed=True), workers=2)[0]),
@@ -280,7 +280,10 @@ def _after_model(ctx, quick, rnd, binary, defect, runs):
         kw = dict(kw)
         if quick and src == "all-refresh-3":
             rnd.shuffle(hs)
-            hs, src = hs[:600], "refresh-3-sample"
+            hs, src = hs[:300], "refresh-3-sample"
+        if not quick and src == "split-late-3" and len(hs) > 8000:
+            rnd.shuffle(hs)
+            hs = hs[:8000]
         if src in ("all-refresh-3", "refresh-3-sample"):
             kw["policies"] = POLICIES
         if kw.pop("twice", False):      # every history with each of the policies
